@@ -165,6 +165,18 @@ def wildcard(F, rep):
                 for b2, t2 in f.calls():
                     if "::ends_with" in (mir.callee(t2) or "") and len(t2[2]) > 1 and mir.const_arg(f, t2[2][1]) == "/":
                         if any(k == "call" and d == str(bi) for k, d in mir.deep_origins(f, t2[2][0])): kept = True
+                if not kept:
+                    # `.strip_suffix('*').filter(|prefix| prefix.ends_with('/'))`: the test sits in the closure of an Option::filter on the stripped value
+                    for b2, t2 in f.calls():
+                        if not (mir.callee(t2) or "").endswith("Option::<T>::filter") or len(t2[2]) < 2: continue
+                        if not any(k == "call" and d == str(bi) for k, d in mir.deep_origins(f, t2[2][0])): continue
+                        for o in mir.trace_op(f, t2[2][1], transparent=()):
+                            if o.kind != "agg": continue
+                            rvc = mir.rv_at(o.fn, *o.data)
+                            c_ = F.fn(rvc[1].get("path")) if isinstance(rvc[1], dict) and rvc[1].get("k") == "closure" else None
+                            if c_ is None: continue
+                            sp_ = mir.sym_paths(c_, limit=50)
+                            if any("::ends_with" in (mir.callee(t3) or "") and len(t3[2]) > 1 and mir.const_arg(c_, t3[2][1]) == "/" for b3, t3 in c_.calls()) and len(list(c_.calls())) == 1: kept = True
                 if kept: rep.ok(rule, "%s: pattern.strip_suffix('*') used only when it ends with '/'" % nm, sample=site, nontrivial_key=nm)
                 else: rep.bad(rule, "prefix-loses-separator:" + nm, "%s strips the '*' but never requires the remaining prefix to end in '/'" % nm, site)
     if n == 0: rep.undecided(rule, "wildcard-prefix-shape", "the 'prefix/*' handling is neither a pattern[..len-k] slice nor strip_suffix: separator retention not evaluated", None)
@@ -174,6 +186,12 @@ def wildcard(F, rep):
     if f is not None:
         f = mir.inlined(F, f, depth=3)
         consts = set()
+        scope_ = [f] + mir.closures_in(F, f)
+        for g_ in scope_[1:]:
+            for bi, t in g_.calls():
+                for a in t[2]:
+                    c = mir.const_arg(g_, a)
+                    if isinstance(c, str): consts.add(c)
         for bi, t in f.calls():
             for a in t[2]:
                 c = mir.const_arg(f, a)
@@ -182,8 +200,8 @@ def wildcard(F, rep):
                     v = mir.promoted_value(F, {"k": "promoted", "of": c[1], "idx": c[2]})
                     if v is not None and v[0] == "const": consts.add(v[1])
         consts = sorted(consts)
-        has = lambda x: any((mir.callee(t) or "").endswith(x) for bi, t in f.calls())
-        has_in = lambda x: any(x in (mir.callee(t) or "") for bi, t in f.calls())
+        has = lambda x: any((mir.callee(t) or "").endswith(x) for g_ in scope_ for bi, t in g_.calls())
+        has_in = lambda x: any(x in (mir.callee(t) or "") for g_ in scope_ for bi, t in g_.calls())
         wild = "/*" in consts or ("/" in consts and has_in("::strip_suffix"))
         pref = has("::starts_with") or has_in("::strip_prefix")
         if "*" in consts and wild and pref and has("::is_empty") and any("PartialEq" in (t[1].get("full") or "") for bi, t in f.calls()):
